@@ -33,6 +33,7 @@ class Opts:
         self.allow_diverge = 0.1
         self.user_macros = 0.0
         self.split_text = 0.0
+        self.share_lines = 0.0   # a definition's END, an include and the next header on one line
         self.__dict__.update(kw)
 
 
@@ -243,6 +244,21 @@ class ProgGen:
         if not self.o.canonical:
             chunks = [self.scramble(c) for c in chunks]
         files = {}
+        if self.o.share_lines and len(chunks) >= 2:
+            # END of one definition, an include of a file with tokens of its own, and the next header (or the first
+            # main statement) share one line: the text leaves the line and comes back to it
+            merged = [chunks[0]]
+            for ci in range(1, len(chunks)):
+                prev = merged[-1]
+                if r.random() < self.o.share_lines and len(prev) >= 2 and chunks[ci]:
+                    fn = 'mid%d.theo' % ci
+                    files[fn] = r.choice(['PROGRAM z%d IN q DO\n  x0 := q\nEND\n' % ci, '// nothing but a comment\n', 'PROGRAM z%d IN q DO x0 := q END' % ci])
+                    tail = prev[-2].rstrip() + ' ' + prev[-1].strip() + ' include "%s" ' % fn + chunks[ci][0].strip()
+                    merged[-1] = prev[:-2] + [tail] + chunks[ci][1:]
+                    meta['shared_line'] = True
+                else:
+                    merged.append(chunks[ci])
+            chunks = merged
         main_lines = []
         if ndefs and r.random() < self.o.multi_file:
             # put some definitions into included files
@@ -287,9 +303,10 @@ class ProgGen:
         """arbitrary layout: join lines, add blank lines and comments"""
         out = []
         cur = ''
+        dense = self.r.random() < 0.35      # whole constructs on one line: nested headers share a line
         for l in lines:
             x = self.r.random()
-            if x < 0.45 and cur:
+            if x < (0.92 if dense else 0.45) and cur:
                 cur += ' ' + l.strip()
             else:
                 if cur:
